@@ -5,6 +5,7 @@ Round trips of the fixed-layout groups for *all* field values; length accounting
 correspondence run; the theorems below are about the model's reader/writer pair.)
 -/
 import Astits.Proofs.Layout
+import Astits.Proofs.PacketRTCanon
 import Astits.Props.C04
 namespace Astits.C11
 
@@ -44,5 +45,175 @@ theorem one_byte_af_parsed (rest : Bytes) :
 
 example : pcrOfBytes (pcrBytes { base := 8589934591, extension := 511 }) = { base := 8589934591, extension := 511 } := by
   decide +kernel
+
+
+open Astits.PacketRT
+
+/-! ## Whole-structure round trip: parsing what the writer emits gives the packet back -/
+
+/-- **adaptation field extension**: for every well-formed extension `e` (present parts fit their bit widths: 15-bit
+legal-time-window offset, 22-bit piecewise rate, 4-bit splice type, 33-bit DTS_next_AU), the parser started at the
+first byte of `afExtBytes e` — whatever precedes and follows — consumes exactly those bytes and returns `normExt e`:
+`e` with `length` recomputed, absent parts zeroed and the DTS extension (not encoded) cleared. -/
+theorem afext_roundtrip (e : PacketAdaptationExtensionField) (h : ExtWF e) (pre post : Bytes) :
+    parseAFExtension.run (pre ++ afExtBytes e ++ post) pre.length =
+      .ok (normExt e, ⟨pre ++ afExtBytes e ++ post, (pre.length : Int) + ((afExtBytes e).length : Int)⟩) := by
+  have := afext_at pre e h post
+  simpa [P.run, List.append_assoc] using this
+
+/-- … and gives back `e` itself when `e` is in the parser's form (`ExtCanon`) -/
+theorem afext_roundtrip_exact (e : PacketAdaptationExtensionField) (h : ExtWF e) (hc : ExtCanon e) (pre post : Bytes) :
+    parseAFExtension.run (pre ++ afExtBytes e ++ post) pre.length =
+      .ok (e, ⟨pre ++ afExtBytes e ++ post, (pre.length : Int) + ((afExtBytes e).length : Int)⟩) := by
+  have := afext_roundtrip e h pre post
+  rwa [(normExt_eq_self_iff e).mpr hc] at this
+
+/-- **adaptation field**, every flag combination: for a well-formed `a` (`AFWF`, and adaptation_field_length fits one
+byte) or the one-byte form, the parser consumes everything but the stuffing bytes and returns `normAF a`:
+`length` := the computed adaptation_field_length, `stuffingLength` := max 0, parts whose flag is off reset to Go's
+zero values, the extension normalised. -/
+theorem af_roundtrip (a : PacketAdaptationField) (h : a.isOneByteStuffing = false → AFWF a ∧ afSize a < 256)
+    (pre post : Bytes) :
+    parsePacketAdaptationField.run (pre ++ afBytes a ++ post) pre.length =
+      .ok (normAF a, ⟨pre ++ afBytes a ++ post,
+        (pre.length : Int) + ((afBytes a).length : Int) - ((afStuffing a).length : Int)⟩) := by
+  have := af_at pre a h (afStuffing a ++ post)
+  rw [afBytes_split]
+  have e : (pre.length : Int) + (((afCore a ++ afStuffing a).length : Nat) : Int) - ((afStuffing a).length : Int)
+      = (pre.length : Int) + ((afCore a).length : Int) := by
+    simp only [List.length_append, Int.natCast_add]; omega
+  rw [e]
+  simpa [P.run, List.append_assoc] using this
+
+
+theorem af_roundtrip_exact (a : PacketAdaptationField) (h1 : a.isOneByteStuffing = false) (h : AFWF a)
+    (hsz : afSize a < 256) (hc : AFCanon a) (pre post : Bytes) :
+    parsePacketAdaptationField.run (pre ++ afBytes a ++ post) pre.length =
+      .ok (a, ⟨pre ++ afBytes a ++ post, (pre.length : Int) + ((afBytes a).length : Int) - a.stuffingLength⟩) := by
+  have := af_roundtrip a (fun _ => ⟨h, hsz⟩) pre post
+  rw [(normAF_eq_self_iff a h1).mpr hc] at this
+  have e : ((afStuffing a).length : Int) = a.stuffingLength := by
+    have := hc.stuffing
+    simp only [afStuffing, h1, Bool.false_eq_true, if_false, List.length_replicate]
+    omega
+  rwa [e] at this
+
+/-- **whole packet**, any payload size: if `writePacket p 188` accepts the well-formed packet `p` and emits `bs`, then
+the model's parse entry point `(parsePacket none).val bs` returns `p` up to the recomputed fields
+(`normaliseWith`): the adaptation field is `normAF` of the written one (`none` when the header flag is off), the
+payload is the written payload followed by the `padLen p` bytes 0xff the writer appends to reach 188 bytes
+(`[]` when `hasPayload` is off). -/
+theorem packet_roundtrip_padded (p : Packet) (h : PacketWF p) (bs : Bytes) (hw : writePacket p 188 = .ok bs) :
+    (parsePacket none).val bs = .ok (normaliseWith (padLen p) p) :=
+  parsePacket_written p none h bs hw (fun _ hs => by cases hs)
+
+/-- the same with a PacketSkipper that does not skip the packet -/
+theorem packet_roundtrip_skipper (p : Packet) (skip : Packet → Bool) (h : PacketWF p) (bs : Bytes)
+    (hw : writePacket p 188 = .ok bs) (hs : skip { normaliseWith (padLen p) p with payload := [] } = false) :
+    (parsePacket (some skip)).val bs = .ok (normaliseWith (padLen p) p) :=
+  parsePacket_written p (some skip) h bs hw (fun s e => by cases e; exact hs)
+
+/-- a packet whose payload, when it has one, fills the 188 bytes -/
+def PacketFull (p : Packet) : Prop :=
+  p.header.hasPayload = true → packetHeadSize p + p.payload.length = 188
+
+/-- **whole packet** (C11): parse ∘ write = `normalise` on well-formed packets that fill their 188 bytes -/
+theorem packet_roundtrip (p : Packet) (h : PacketWF p) (hfull : PacketFull p) (bs : Bytes)
+    (hw : writePacket p 188 = .ok bs) :
+    (parsePacket none).val bs = .ok (normalise p) := by
+  rw [← normaliseWith_padLen p hfull]
+  exact packet_roundtrip_padded p h bs hw
+
+/-- … and parse ∘ write = id on packets that are in the parser's form (`PacketCanon`, equivalently `normalise p = p`) -/
+theorem packet_roundtrip_exact (p : Packet) (h : PacketWF p) (hfull : PacketFull p) (hc : PacketCanon p) (bs : Bytes)
+    (hw : writePacket p 188 = .ok bs) :
+    (parsePacket none).val bs = .ok p := by
+  have := packet_roundtrip p h hfull bs hw
+  rwa [(normalise_eq_self_iff p).mpr hc] at this
+
+/-- what the parser returns is a fixed point of `normalise`, i.e. is in the parser's form -/
+theorem parsed_is_canonical (p : Packet) : PacketCanon (normalise p) :=
+  (normalise_eq_self_iff _).mp (normalise_idem p)
+
+/-! ### non-vacuity: a packet with PCR, private data, an extension with all three parts, stuffing and payload -/
+
+def exExt : PacketAdaptationExtensionField :=
+  { dtsNextAccessUnit := some { base := 8589934591, extension := 0 }, hasLegalTimeWindow := true, hasPiecewiseRate := true,
+    hasSeamlessSplice := true, legalTimeWindowIsValid := true, legalTimeWindowOffset := 12345, length := 11,
+    piecewiseRate := 4000000, spliceType := 9 }
+
+def exAF : PacketAdaptationField :=
+  { adaptationExtensionField := some exExt, pcr := some { base := 6442450941, extension := 299 },
+    transportPrivateData := [1, 2, 3], transportPrivateDataLength := 3, length := 25, stuffingLength := 2,
+    randomAccessIndicator := true, hasAdaptationExtensionField := true, hasPCR := true, hasTransportPrivateData := true }
+
+def exPkt : Packet :=
+  { adaptationField := some exAF
+    header := { continuityCounter := 11, hasAdaptationField := true, hasPayload := true, payloadUnitStartIndicator := true,
+                pid := 0x1abc, transportErrorIndicator := false, transportPriority := true, transportScramblingControl := 2 }
+    payload := List.replicate 158 0xab }
+
+example : ExtWF exExt := ⟨fun _ => by decide, fun _ => by decide, fun _ => ⟨by decide, by decide⟩⟩
+example : ExtCanon exExt := by
+  refine ⟨by decide, by decide, by decide, by decide, ?_⟩
+  intro d hd; cases hd; rfl
+
+
+theorem exExt_wf : ExtWF exExt := ⟨fun _ => by decide, fun _ => by decide, fun _ => ⟨by decide, by decide⟩⟩
+theorem exExt_canon : ExtCanon exExt := by
+  refine ⟨by decide, by decide, by decide, by decide, ?_⟩
+  intro d hd; cases hd; rfl
+
+theorem exAF_wf : AFWF exAF :=
+  ⟨fun _ => by decide, fun h => absurd h (by decide), fun h => absurd h (by decide), fun _ => ⟨by decide, by decide⟩,
+   fun _ => exExt_wf⟩
+theorem exAF_canon : AFCanon exAF := by
+  refine ⟨by decide, by decide, by decide, by decide, by decide, by decide, by decide, ?_⟩
+  intro e he; cases he; exact exExt_canon
+
+theorem exPkt_wf : PacketWF exPkt := ⟨by decide, by decide, by decide, fun _ _ => exAF_wf⟩
+theorem exPkt_full : PacketFull exPkt := fun _ => by decide +kernel
+theorem exPkt_canon : PacketCanon exPkt := by
+  refine ⟨by decide, ?_, by decide⟩
+  intro a ha; cases ha
+  exact ⟨fun h => absurd h (by decide), fun _ => exAF_canon⟩
+
+/-- sync, header 7a bc bb, adaptation_field_length 25, flags 0x53, PCR, private data, extension (length 11, LTW, piecewise
+rate, DTS_next_AU), two stuffing bytes, 158 payload bytes -/
+def exBytes : Bytes :=
+  [0x47, 0x7a, 0xbc, 0xbb, 25, 0x53, 191, 255, 255, 254, 255, 43, 3, 1, 2, 3, 11, 255, 176, 57, 253, 9, 0,
+   159, 255, 255, 255, 255, 255, 255] ++ List.replicate 158 0xab
+
+theorem res_ok_of_check (r : Res Bytes) (bs : Bytes)
+    (h : (match r with | .ok b => decide (b = bs) | _ => false) = true) : r = .ok bs := by
+  cases r with
+  | ok b => simp only [decide_eq_true_eq] at h; rw [h]
+  | err e => cases h
+  | panic => cases h
+
+theorem exPkt_written : writePacket exPkt 188 = .ok exBytes := res_ok_of_check _ _ (by decide +kernel)
+
+/-- the hypotheses of `packet_roundtrip_exact` hold for `exPkt`: parsing its 188 bytes gives it back, field for field -/
+example : (parsePacket none).val exBytes = .ok exPkt :=
+  packet_roundtrip_exact exPkt exPkt_wf exPkt_full exPkt_canon exBytes exPkt_written
+
+/-- a packet that is *not* in the parser's form (stale `length`, negative stuffing, a PCR without its flag):
+the round trip gives its normal form -/
+def exPkt2 : Packet :=
+  { adaptationField := some { pcr := some { base := 1, extension := 2 }, length := 99, stuffingLength := -3, spliceCountdown := 200,
+                              hasSplicingCountdown := true }
+    header := { continuityCounter := 0, hasAdaptationField := true, hasPayload := false, payloadUnitStartIndicator := false,
+                pid := 17, transportErrorIndicator := false, transportPriority := false, transportScramblingControl := 0 }
+    payload := [] }
+
+theorem exPkt2_wf : PacketWF exPkt2 :=
+  ⟨by decide, by decide, by decide, fun _ _ => ⟨fun h => absurd h (by decide), fun h => absurd h (by decide),
+    fun _ => ⟨by decide, by decide⟩, fun h => absurd h (by decide), fun h => absurd h (by decide)⟩⟩
+example : ∀ bs, writePacket exPkt2 188 = .ok bs → (parsePacket none).val bs = .ok (normalise exPkt2) :=
+  fun bs hw => packet_roundtrip exPkt2 exPkt2_wf (fun h => absurd h (by decide)) bs hw
+example : (writePacket exPkt2 188).isOk = true := by decide +kernel
+example : normalise exPkt2 = { exPkt2 with adaptationField := some { length := 2, spliceCountdown := 200, hasSplicingCountdown := true } } := by
+  decide +kernel
+
 
 end Astits.C11
